@@ -38,6 +38,8 @@ def _geoms(tier):
             out.append(dict(spb=spb, W=4, cut=cut, extra=extra, layout=layout, flen=fl))
         out.append(dict(spb=8, W=3, cut=0, extra=0, layout="std", flen=512))
         out.append(dict(spb=8, W=5, cut=2, extra=0, layout="hdr_after_bat", flen=512))
+        out.append(dict(spb=8, W=3, cut=1, extra=0, layout="std", flen=512, at=1022))
+        out.append(dict(spb=8, W=3, cut=0, extra=2, layout="bat_after_data", flen=511, at=4094))
         out.append(dict(spb=4096, W=3, cut=9, extra=0, layout="std", flen=512, big=True))
         out.append(dict(spb=8192, W=3, cut=0, extra=2, layout="hdr_after_bat", flen=511, big=True))
     else:
@@ -68,7 +70,8 @@ def shards(tier):
 
 def _requests(g, size, buf):
     bs = g["spb"] * 512
-    pts = boundaries(size, bs, buf)
+    at = g.get("at", 0)
+    pts = boundaries(size, bs, buf, max(0, (at - 1) * bs), size) if at else boundaries(size, bs, buf)
     if g.get("big"):
         reqs = request_pairs(pts, 2 * buf + 1024)
         reqs += [(0, size), (0, 2 * bs), (bs // 2, 2 * bs), (bs - 512, bs + 1024), (bs, size), (1, size - 2)]
@@ -113,7 +116,9 @@ def run_case(case, ctx):
         subject = f"vhd.fixed.f{case['flen']}"
     else:
         g = case["geom"]
-        states, slots = case["states"], case["slots"]
+        at = g.get("at", 0)
+        states = [HOLE] * at + list(case["states"])
+        slots = [None] * at + list(case["slots"])
         spb = g["spb"]
         size = (len(states) * spb - g["cut"]) * 512
         img = B.build_dynamic(states, slots, spb, size, len(states) + g["extra"], g["layout"], g["flen"])
